@@ -913,6 +913,9 @@ func (e *lenEng) intUpper(v ssa.Value, at *ssa.BasicBlock, d int) (lform, bool) 
 			if ok && f.exact {
 				return f, true
 			}
+			if ok {
+				return latom(fmt.Sprintf("len:%p", l)), true
+			}
 		}
 		if bi, ok := x.Call.Value.(*ssa.Builtin); ok && bi.Name() == "min" {
 			// not above any of its operands
@@ -924,6 +927,30 @@ func (e *lenEng) intUpper(v ssa.Value, at *ssa.BasicBlock, d int) (lform, bool) 
 		}
 	case *ssa.Convert:
 		return e.intUpper(x.X, at, d+1)
+	case *ssa.Phi:
+		// a counter that only goes down from where it starts
+		var init ssa.Value
+		okDown := true
+		for _, ed := range x.Edges {
+			if bo, ok := ed.(*ssa.BinOp); ok && bo.X == ssa.Value(x) {
+				if c, ok := bo.Y.(*ssa.Const); ok && c.Value != nil && c.Value.Kind() == constant.Int {
+					if (bo.Op == token.SUB && constant.Sign(c.Value) >= 0) || (bo.Op == token.ADD && constant.Sign(c.Value) <= 0) {
+						continue
+					}
+				}
+				okDown = false
+				continue
+			}
+			if init != nil && init != ed {
+				okDown = false
+			}
+			init = ed
+		}
+		if okDown && init != nil {
+			if f, ok := e.intUpper(init, x.Block(), d+1); ok {
+				return f, true
+			}
+		}
 	}
 	// a dominating test v < E / v <= E
 	for b := at; b != nil; b = b.Idom() {
@@ -1064,6 +1091,7 @@ func (e *lenEng) intLower(v ssa.Value, at *ssa.BasicBlock, d int) (lform, bool) 
 	case *ssa.Phi:
 		// a counter that starts at a non-negative constant and only goes up
 		var lo int64 = -1
+		up := true
 		for _, ed := range x.Edges {
 			if c, ok := ed.(*ssa.Const); ok && c.Value != nil && c.Value.Kind() == constant.Int {
 				n, _ := constant.Int64Val(c.Value)
@@ -1071,7 +1099,7 @@ func (e *lenEng) intLower(v ssa.Value, at *ssa.BasicBlock, d int) (lform, bool) 
 					lo = n
 				}
 				if n < 0 {
-					return lform{}, false
+					up = false
 				}
 				continue
 			}
@@ -1080,12 +1108,63 @@ func (e *lenEng) intLower(v ssa.Value, at *ssa.BasicBlock, d int) (lform, bool) 
 					continue
 				}
 			}
-			return lform{}, false
+			up = false
 		}
-		if lo >= 0 {
+		if up && lo >= 0 {
 			f := lconst(lo)
 			f.exact = false
 			return f, true
+		}
+	}
+	// a dominating test v >= K / v > K with a constant K
+	for b := at; b != nil; b = b.Idom() {
+		parent := b.Idom()
+		if parent == nil || len(parent.Instrs) == 0 {
+			continue
+		}
+		ifi, ok := parent.Instrs[len(parent.Instrs)-1].(*ssa.If)
+		if !ok {
+			continue
+		}
+		cmp, ok := ifi.Cond.(*ssa.BinOp)
+		if !ok || cmp.X != v {
+			continue
+		}
+		k, ok := cmp.Y.(*ssa.Const)
+		if !ok || k.Value == nil || k.Value.Kind() != constant.Int {
+			continue
+		}
+		kv, _ := constant.Int64Val(k.Value)
+		for side := 0; side < 2; side++ {
+			sc := parent.Succs[side]
+			if !(len(sc.Preds) == 1 && (sc == at || sc.Dominates(at))) || parent.Succs[0] == parent.Succs[1] {
+				continue
+			}
+			op := cmp.Op
+			if side == 1 {
+				switch op {
+				case token.LSS:
+					op = token.GEQ
+				case token.LEQ:
+					op = token.GTR
+				case token.GTR:
+					op = token.LEQ
+				case token.GEQ:
+					op = token.LSS
+				default:
+					continue
+				}
+			}
+			switch op {
+			case token.GEQ:
+				f := lconst(kv)
+				f.exact = false
+				return f, true
+			case token.GTR:
+				f := lconst(kv + 1)
+				f.exact = false
+				return f, true
+			}
 		}
 	}
 	return lform{}, false
@@ -1169,6 +1248,16 @@ func lenProveSite(w *World, fn *ssa.Function, b *ssa.BasicBlock, ins ssa.Instruc
 			}
 			return false
 		}
+		// a length that is only bounded from below is a quantity of its own (the same wherever
+		// len() of the same value is taken), at least as large as the bound
+		intrinsic := map[string]int64{}
+		if !n.exact {
+			a := fmt.Sprintf("len:%p", base)
+			if n.nonneg() {
+				intrinsic[a] = n.c
+			}
+			n = latom(a)
+		}
 		u, ok := e.intUpper(idx, b, 0)
 		if !ok {
 			if os.Getenv("VERIF_DEBUG") == "lens" {
@@ -1205,6 +1294,10 @@ func lenProveSite(w *World, fn *ssa.Function, b *ssa.BasicBlock, ins ssa.Instruc
 		}
 		room = e.paramFloor(fn, room, 0)
 		l = e.paramFloor(fn, l, 0)
+		for k, fl := range intrinsic {
+			room.c += room.t[k] * fl
+			l.c += l.t[k] * fl
+		}
 		if !room.nonneg() || !l.nonneg() {
 			// lengths a dominating test has bounded from below: a = floor + a', a' ≥ 0
 			for k, fl := range e.lengthFloors(b) {
